@@ -300,12 +300,11 @@ class _GenerateRenderMethod:
 
         this could be the main render() method or that of a top-level def."""
 
-        if self.in_def:
-            decorator = node.decorator
-            if decorator:
-                self.printer.writeline(
-                    "@runtime._decorate_toplevel(%s)" % decorator
-                )
+        decorator = None
+        if self.in_def and node.decorator:
+            decorator = "@runtime._decorate_toplevel(%s)" % node.decorator
+            if not cached:
+                self.printer.writeline(decorator)
 
         self.printer.start_source(node.lineno)
         self.printer.writelines(
@@ -347,7 +346,13 @@ class _GenerateRenderMethod:
         self.printer.write_blanks(2)
         if cached:
             self.write_cache_decorator(
-                node, name, args, buffered, self.identifiers, toplevel=True
+                node,
+                name,
+                args,
+                buffered,
+                self.identifiers,
+                toplevel=True,
+                decorator=decorator,
             )
 
     def write_module_code(self, module_code):
@@ -620,17 +625,19 @@ class _GenerateRenderMethod:
 
         namedecls = node.get_argument_expressions()
 
-        decorator = node.decorator
-        if decorator:
-            self.printer.writeline(
-                "@runtime._decorate_inline(context, %s)" % decorator
-            )
-        self.printer.writeline(
-            "def %s(%s):" % (node.funcname, ",".join(namedecls))
-        )
         filtered = len(node.filter_args.args) > 0
         buffered = eval(node.attributes.get("buffered", "False"))
         cached = eval(node.attributes.get("cached", "False"))
+        decorator = None
+        if node.decorator:
+            decorator = (
+                "@runtime._decorate_inline(context, %s)" % node.decorator
+            )
+            if not cached:
+                self.printer.writeline(decorator)
+        self.printer.writeline(
+            "def %s(%s):" % (node.funcname, ",".join(namedecls))
+        )
         # an anonymous block is part of the callable it is written in and
         # not called by anyone else: "caller" stays that callable's caller
         callstack = not (node.is_block and node.is_anonymous)
@@ -667,6 +674,7 @@ class _GenerateRenderMethod:
                 identifiers,
                 inline=True,
                 toplevel=False,
+                decorator=decorator,
             )
 
     def write_def_finish(
@@ -729,9 +737,13 @@ class _GenerateRenderMethod:
         identifiers,
         inline=False,
         toplevel=False,
+        decorator=None,
     ):
         """write a post-function decorator to replace a rendering
-        callable with a cached version of itself."""
+        callable with a cached version of itself.
+
+        A decorator= of the def is applied to that cached version: it wraps
+        the call, whether the content comes from the cache or not."""
 
         self.printer.writeline("__M_%s = %s" % (name, name))
         cachekey = node_or_pagetag.parsed_attributes.get(
@@ -753,6 +765,8 @@ class _GenerateRenderMethod:
         if "timeout" in cache_args:
             cache_args["timeout"] = int(eval(cache_args["timeout"]))
 
+        if decorator:
+            self.printer.writeline(decorator)
         self.printer.writeline("def %s(%s):" % (name, ",".join(args)))
 
         # form "arg1, arg2, *args, arg4=arg4, **kw": arguments that can be
